@@ -129,7 +129,7 @@ Section Proof.
     afero_walk cb t root s = std_walk cb t root s.
   Proof.
     intros t root s. unfold afero_walk, afero_walk_gen, std_walk.
-    destruct (lookup t root) as [n|].
+    destruct (tree_lookup t root) as [n|].
     - pose proof (conv_post _ _ _ (nodes_agree n root s)) as H. unfold conv in H.
       destruct (afero_walk_node cb n root s) as [s1 a1].
       destruct (std_walk_node cb n root s) as [s2 a2]. cbn [fst snd] in H.
@@ -143,7 +143,7 @@ Section Proof.
   Proof.
     intros t root s. rewrite <- afero_walk_eq_std.
     unfold afero_walk, afero_walk_current, afero_walk_gen, conv.
-    destruct (match lookup t root with
+    destruct (match tree_lookup t root with
               | Some n => afero_walk_node cb n root s
               | None => cb s (mkVisit root None (Some ENOENT)) end) as [s1 a].
     destruct a; reflexivity.
@@ -169,7 +169,7 @@ Section Proof.
   Corollary std_walk_never_skipdir : forall t root s, snd (std_walk cb t root s) <> SkipDir.
   Proof.
     intros t root s. unfold std_walk.
-    destruct (match lookup t root with
+    destruct (match tree_lookup t root with
               | Some n => std_walk_node cb n root s
               | None => cb s (mkVisit root None (Some ENOENT)) end) as [s1 a].
     destruct a; cbn [snd]; discriminate.
